@@ -7,6 +7,7 @@ import (
 	"errors"
 	"fmt"
 	"github.com/tencent/goom/erro"
+	"io"
 	"os"
 	"path"
 	"path/filepath"
@@ -403,6 +404,23 @@ func TestC19(t *testing.T) {
 			}()
 			b.Reset()
 		}
+		// mocks with an origin placeholder: building the trampoline reads, copies and (under trace) dumps the head of the
+		// original; targets whose instruction stream differs around the end of the dumped window
+		for oi, tf := range originTargets {
+			oi, tf := oi, tf
+			try(fmt.Sprintf("origin target %d", oi), func() {
+				ob := mocker.Create()
+				defer ob.Reset()
+				var origin = func(i int) int {
+					fmt.Fprintln(io.Discard, "only for placeholder, will not call")
+					fmt.Fprintln(io.Discard, "only for placeholder, will not call")
+					fmt.Fprintln(io.Discard, "only for placeholder, will not call")
+					return 0
+				}
+				ob.Func(tf).Origin(&origin).Apply(func(i int) int { return origin(i) + 100 })
+				rec("origin target %d -> mocked %d origin %d", oi, tf(k), origin(5))
+			})
+		}
 		try("iface unmocked method", func() {
 			var j I
 			b2 := mocker.Create()
@@ -543,3 +561,74 @@ func FArr(x [32]byte, y [20]int, zs []int64, s string) ([32]byte, [17]string) { 
 
 //go:noinline
 func FArr2() ([32]byte, [64]int) { return [32]byte{}, [64]int{} }
+
+var (
+	sinkA, sinkB, sinkC, sinkD uint64
+	sinkE, sinkF, sinkG        int32
+)
+
+// originTargets differ in where their 64-bit constants lie relative to the start of the function
+var originTargets = []func(int) int{ot0, ot1, ot2, ot3, ot4, ot5}
+
+//go:noinline
+func ot0(i int) int {
+	sinkA = 0x0606060606060601
+	sinkB = 0x0606060606060602
+	sinkC = 0x0606060606060603
+	sinkD = 0x0606060606060604
+	return i + 1
+}
+
+//go:noinline
+func ot1(i int) int {
+	sinkE = int32(i)
+	sinkA = 0x0606060606060601
+	sinkB = 0x0606060606060602
+	sinkC = 0x0606060606060603
+	sinkD = 0x0606060606060604
+	return i + 1
+}
+
+//go:noinline
+func ot2(i int) int {
+	sinkE = int32(i)
+	sinkF = int32(i)
+	sinkA = 0x0606060606060601
+	sinkB = 0x0606060606060602
+	sinkC = 0x0606060606060603
+	sinkD = 0x0606060606060604
+	return i + 1
+}
+
+//go:noinline
+func ot3(i int) int {
+	sinkE = int32(i)
+	sinkF = int32(i)
+	sinkG = int32(i)
+	sinkA = 0x0606060606060601
+	sinkB = 0x0606060606060602
+	sinkC = 0x0606060606060603
+	sinkD = 0x0606060606060604
+	return i + 1
+}
+
+//go:noinline
+func ot4(i int) int {
+	sinkA = 0x0606060606060601 + uint64(i)
+	sinkB = 0x0606060606060602
+	sinkE = int32(i)
+	sinkC = 0x0606060606060603
+	sinkD = 0x0606060606060604
+	return i + 1
+}
+
+//go:noinline
+func ot5(i int) int {
+	if i > 1000 {
+		sinkA = 0x0606060606060601
+	}
+	sinkB = 0x0606060606060602
+	sinkC = 0x0606060606060603
+	sinkD = 0x0606060606060604
+	return i + 1
+}
